@@ -465,8 +465,79 @@ def validate_lifecycle(res):
     res.extra["translation_validation_lifecycle"] = stats
 
 
+def validate_collect_heap(rng, n_cases, res):
+    """live coupling forests (the harness of C19, incl. adapters shared by several inputs): the real
+    `_collect_adapters_input` / `_collect_adapters_output` of every input / output and `Composition._collect_adapters`
+    against the translated definitions on the extracted attribute tables; sets are compared as sets"""
+    from finam import schedule as sched
+    from .engines import c19
+
+    if not all(common.TRANSLATION_STATUS.get(f, {}).get("translated") for f in
+               ("collect_adapters_input", "collect_adapters_output", "collect_adapters")):
+        return
+    stats = {"forests": 0, "collect_adapters_input": 0, "collect_adapters_output": 0, "collect_adapters": 0,
+             "mismatch": 0, "adapters_collected": 0}
+    for _ in range(n_cases):
+        case = c19.gen_case(rng)
+        try:
+            composition, comps, objs_by_pos, _created, _log = c19.build_objects(case)
+        except Exception:  # noqa
+            continue
+        stats["forests"] += 1
+        objs = list(comps)
+        seen = {id(o) for o in objs}
+        for c in comps:
+            for o in list(c.outputs.values()) + list(c.inputs.values()):
+                if id(o) not in seen:
+                    seen.add(id(o))
+                    objs.append(o)
+        for o in objs_by_pos.values():
+            if id(o) not in seen:
+                seen.add(id(o))
+                objs.append(o)
+        heap, ix = extract_heap(objs)
+        reqs, expect = [], []
+
+        def real(f, x):
+            acc = set()
+            try:
+                f(x, acc)
+                return {"ok": sorted(ix[id(a)] for a in acc)}
+            except Exception as e:  # noqa
+                return {"err": err_class(e)}
+
+        for c in comps:
+            for inp in c.inputs.values():
+                reqs.append({"fn": "collect_adapters_input", "args": [heap, ix[id(inp)]]})
+                expect.append(("collect_adapters_input", real(sched._collect_adapters_input, inp)))
+            for out in c.outputs.values():
+                reqs.append({"fn": "collect_adapters_output", "args": [heap, ix[id(out)]]})
+                expect.append(("collect_adapters_output", real(sched._collect_adapters_output, out)))
+        try:
+            composition._adapters = set()
+            composition._collect_adapters()
+            whole = {"ok": sorted(ix[id(a)] for a in composition._adapters)}
+        except Exception as e:  # noqa
+            whole = {"err": err_class(e)}
+        reqs.append({"fn": "collect_adapters", "args": [heap, [ix[id(c)] for c in composition._components]]})
+        expect.append(("collect_adapters", whole))
+        for (fn, want), got in zip(expect, _trdriver(reqs)):
+            stats[fn] += 1
+            if "ok" in want and "ok" in got:
+                agree = sorted(got["ok"]) == want["ok"] and len(set(got["ok"])) == len(got["ok"])
+                stats["adapters_collected"] += len(want["ok"])
+            else:
+                agree = want.get("err") == got.get("err")
+            if not agree:
+                stats["mismatch"] += 1
+                res.diverge("translation/" + fn, {"case": case, "fn": fn}, want, got)
+    res.extra["translation_validation_collect"] = stats
+
+
 def validate(prop, rng, n_per_fn, res):
     """runs the validation for the translated functions owned by `prop`; divergences go to `res`"""
+    if prop == "C03" and os.path.exists(TRDRIVER):
+        validate_collect_heap(rng, max(20, n_per_fn), res)
     if prop == "C03" and os.path.exists(TRDRIVER):
         validate_lifecycle(res)
     if prop == "C17" and os.path.exists(TRDRIVER):
